@@ -128,6 +128,13 @@ def lcpPass (c : Classifier) (useCalc : Bool) (out : List Str) (lcps : List Nat)
 def boundsOf (sizes : List Nat) : List Nat :=
   (sizes.foldl (fun (acc : List Nat × Nat) s => (acc.1 ++ [acc.2 + s], acc.2 + s)) ([0], 0)).1
 
+/-- `if (start != 0) set_lcp(start, depth + lcpKeyType(cache[start - 1], cache[start]))` for the group
+that starts behind a group of key `prev` -/
+def withHead (prev : Option Key) (depth : Nat) (k : Key) (inner : Res) : Res :=
+  match prev with
+  | some pk => { inner with lcp := setLcp inner.lcp 0 (depth + lcpKeyType pk k) }
+  | none => inner
+
 /-- the groups of equal cached keys of `insertion_sort_cache<false>` after the strings were
 sorted by their cached keys: LCP between groups from the two keys, inside a group a deeper
 insertion sort (`depth + 8`) or, when the key contains the terminator, `fill_lcp` -/
@@ -142,11 +149,8 @@ def insGroups (depth : Nat) (prev : Option Key) : Nat → List (Str × Key) → 
         if lowByte k ≠ 0 then insSort (depth + 8) (grp.map (·.1))      -- insertion_sort(sub, depth + 8)
         else doneRes (grp.map (·.1)) (depth + lcpKeyDepth k)
       else { out := [s], lcp := [0] }
-    let inner : Res := match prev with
-      | some pk => { inner with lcp := setLcp inner.lcp 0 (depth + lcpKeyType pk k) }
-      | none => inner
     let r ← insGroups depth (some k) g after
-    pure (inner.append r)
+    pure ((withHead prev depth k inner).append r)
 
 inductive Mode
   | enq          -- PS5Context::enqueue
